@@ -518,8 +518,34 @@ func (m *Machine) OpChangePass(t *rapid.T) {
 				m.PubPass = newPass
 			}
 			m.N["passphrase-change"]++
-			if !bytes.Equal(oldCopy, newPass) {
-				m.checkOldPassphraseFails(private, oldCopy)
+			// immediate follow-ups, in a drawn order: the new passphrase works at
+			// once (also on a manager that is still unlocked), the old one fails
+			switch rapid.IntRange(0, 2).Draw(t, "afterChange") {
+			case 0:
+				if !bytes.Equal(oldCopy, newPass) {
+					m.checkOldPassphraseFails(private, oldCopy)
+				}
+			case 1:
+				if private && !m.WatchOnly {
+					var uerr error
+					m.View(func(ns walletdb.ReadBucket) { uerr = m.Mgr.Unlock(ns, m.PrivPass) })
+					m.Case.Logf("  unlock with the NEW private passphrase (was locked=%v) -> %v", m.Locked, uerr)
+					if uerr != nil && !(m.KnownF7 != nil && m.KnownF7(uerr)) {
+						m.Violation("the new private passphrase does not unlock right after ChangePassphrase (manager was locked=%v): %v", m.Locked, uerr)
+					}
+					if uerr == nil {
+						m.Locked = false
+					} else {
+						m.Locked = true
+					}
+					if m.Mgr.IsLocked() != m.Locked {
+						m.Violation("after Unlock with the new passphrase the manager reports locked=%v", m.Mgr.IsLocked())
+					}
+				}
+				if !bytes.Equal(oldCopy, newPass) {
+					m.checkOldPassphraseFails(private, oldCopy)
+				}
+			default:
 			}
 		}
 	}
